@@ -59,24 +59,31 @@ def child_env(extra: dict | None = None) -> dict:
 
 
 _WORK = None
+_WORK_PID = None
 
 
 def work_dir() -> str:
-    """Private scratch dir under /verif/.work (git-ignored), removed at exit."""
-    global _WORK
+    """Private scratch dir under /verif/.work (git-ignored), removed at exit. A forked worker gets a sub-directory of
+    its parent's (two processes never build into the same directory; the parent removes the whole tree)."""
+    global _WORK, _WORK_PID
+    pid = os.getpid()
     if _WORK is None:
         base = os.path.join(VERIF, ".work")
         os.makedirs(base, exist_ok=True)
-        _WORK = os.path.join(base, f"w{os.getpid()}")
+        _WORK = os.path.join(base, f"w{pid}")
+        _WORK_PID = pid
         shutil.rmtree(_WORK, ignore_errors=True)
         os.makedirs(_WORK)
-        pid = os.getpid()
 
         def _cleanup(path=_WORK, pid=pid):
             if os.getpid() == pid:
                 shutil.rmtree(path, ignore_errors=True)
 
         atexit.register(_cleanup)
+    elif _WORK_PID != pid:
+        _WORK = os.path.join(_WORK, f"fork{pid}")
+        _WORK_PID = pid
+        os.makedirs(_WORK, exist_ok=True)
     return _WORK
 
 
